@@ -85,28 +85,45 @@ func newFixture(spec *typeSpec) (*fixture, error) {
 	if err := fx.newTwin(); err != nil {
 		return nil, err
 	}
-	settle()
 	// harness self-check: the twin really is a twin (same answers from every read of the snapshot list)
 	ov, err := observe(root, fx.V, fx.reads)
 	if err != nil {
 		return nil, err
 	}
-	for k, a := range ov.Reads {
-		if e := endpointOf(strings.SplitN(k, " ", 2)[1]); e == "mutations" || e == "lastmod" || e == "index" {
-			continue // carry uuids / timestamps / mutation ids
+	if twinDiffers(ov, fx.wObs) != "" {
+		// background processing may lag: look again after a deep settle before calling the fixture broken
+		deepSettle()
+		if ov, err = observe(root, fx.V, fx.reads); err != nil {
+			return nil, err
 		}
-		b := fx.wObs.Reads[k]
-		if a[:3] == b[:3] && a[0] != '2' {
-			continue // both refused alike (the messages quote the uuid)
+		if fx.wObs, err = observe(root, fx.W, fx.reads); err != nil {
+			return nil, err
 		}
-		if a != b && string(canonJSON(ov.Body[k])) != string(canonJSON(fx.wObs.Body[k])) {
-			return nil, fmt.Errorf("twin differs from V: %s answers %s at V and %s at the twin", k, ov.Text[k], fx.wObs.Text[k])
-		}
+	}
+	if why := twinDiffers(ov, fx.wObs); why != "" {
+		return nil, fmt.Errorf("twin differs from V: %s", why)
 	}
 	if err := drive.Commit(fx.V); err != nil {
 		return nil, err
 	}
 	return fx, nil
+}
+
+// twinDiffers compares the read snapshots of V and of its open twin ("" = same content).
+func twinDiffers(ov, ow *obs) string {
+	for k, a := range ov.Reads {
+		if e := endpointOf(strings.SplitN(k, " ", 2)[1]); e == "mutations" || e == "lastmod" || e == "index" {
+			continue // carry uuids / timestamps / mutation ids
+		}
+		b := ow.Reads[k]
+		if a[:3] == b[:3] && a[0] != '2' {
+			continue // both refused alike (the messages quote the uuid)
+		}
+		if a != b && string(canonJSON(ov.Body[k])) != string(canonJSON(ow.Body[k])) {
+			return fmt.Sprintf("%s answers %s at V and %s at the twin", k, ov.Text[k], ow.Text[k])
+		}
+	}
+	return ""
 }
 
 var errPoolEmpty = fmt.Errorf("twin pool exhausted")
@@ -128,7 +145,7 @@ func (fx *fixture) newTwin() error {
 	if err := fx.spec.content(w); err != nil {
 		return fmt.Errorf("content at twin: %v", err)
 	}
-	settle()
+	settleFirm()
 	fx.wDirty = false
 	fx.wObs, err = observe(fx.root, w, fx.reads)
 	return err
